@@ -4,3 +4,4 @@ import PflDrv.CFG
 import PflDrv.PDA
 import PflDrv.FST
 import PflDrv.Indexed
+import PflDrv.Regex
